@@ -82,6 +82,9 @@ func rulesC05(c *Ctx) {
 	c05Round2(c)
 	c05Round3(c)
 	c05Round4(c)
+	sharePoolPrimitivesRule(c, "C05.shares")
+	aliasedAccountsRule(c)
+	c.WithRules(map[string]string{"C15.*": "C05.shares"}, func() { freshDebondingRecordRule(c) })
 	ix := c.P.BuildIndex()
 
 	// ---- (a) LEDGER discipline
